@@ -470,7 +470,7 @@ class ModelExport:
                         source_types = model.List(
                             [type.to_model() for type in op.inputs]
                         )
-                        source = self.link_name(OutPort(child, 0))
+                        source = self.link_name(InPort(child, 0))
 
                     child_node = self.export_node(child)
 
